@@ -522,6 +522,39 @@ package transport
 //@   ensures t.dialingCall == nil
 //@   callsite close: [C18:the-call-being-waited-for] arg0 == call.done
 
+// QuicTransport.getConn: a closed transport hands out nothing; a live connection is reused; otherwise exactly one
+// dial is in flight at a time - a caller that finds one waits for it, a caller that finds none starts one (one
+// goroutine) and registers it inside the same critical section.
+//@ func (call *dialingQuicCall) wait(ctx context.Context) (c quic.Connection, err error)
+//@   trusted
+//@   requires call != nil
+//@   modifies nothing
+//@ func (t *QuicTransport) getConn(ctx context.Context) (c quic.Connection, newConn bool, err error)
+//@   props C18
+//@   requires t != nil && ctx != nil && t.opts.DialContext != nil && t.logger != nil && t.ctx != nil
+//@   ghost nGo int = 0
+//@   ghost held bool = false
+//@   oncall Lock: held = true
+//@   oncall Unlock: held = false
+//@   oncall go: nGo = nGo + 1
+//@   modifies t.c, t.dialingCall
+//@   ensures [C18:closed-transport-hands-out-nothing] old(t.closed) ==> err == ErrClosedTransport && c == nil && nGo == 0
+//@   ensures [C18:one-dial-at-a-time] nGo == ((!old(t.closed) && old(t.dialingCall) == nil && (old(t.c) == nil || t.c == nil)) ? 1 : 0) && !held
+//@   callsite go: [C18:dial-registered-before-it-starts] !held && t.dialingCall != nil && t.dialingCall.done != nil && t.dialingCall.c == nil && t.dialingCall.err == nil
+
+// exchangeStream: the goroutine that writes the query and reads the reply reports through its own channel only;
+// it shares no variable with the function that started it - in particular not the function's named results, which
+// the function itself writes when it returns early (a data race on what the caller receives).
+//@ func (t *QuicTransport) exchangeStream(ctx context.Context, payload []byte, stream quic.Stream) (resp *dnsmsg.Msg, err error)
+//@   props C20
+//@   requires t != nil && ctx != nil && stream != nil
+//@   ghost nGo int = 0
+//@   oncall go: nGo = nGo + 1
+//@   modifies nothing
+//@   ensures nGo == 1
+//@   callsite go: [C20:goroutine-shares-no-result-variable-with-its-spawner] !capturesVar(err) && !capturesVar(resp)
+//@   callsite go: [C20:reply-travels-over-a-private-channel] capturesVar(rc) && capturesVar(payload) && capturesVar(stream)
+
 // closing a transport (any implementation) does not touch its user's state: it closes its own connections
 //@ func (t Transport) Close() (err error)
 //@   trusted
